@@ -10,6 +10,9 @@ use core::hash::{BuildHasher, Hash};
 use core::marker::PhantomData;
 use core::sync::atomic::{AtomicI64, Ordering};
 
+#[cfg(feature = "verif-hooks")]
+mod verif;
+
 /// DEFAULT_SAMPLES is the number of items to sample when looking at eviction
 /// candidates. 5 seems to be the most optimal number [citation needed].
 const DEFAULT_SAMPLES: usize = 5;
